@@ -64,12 +64,14 @@ class Gen:
             return ["```{note} " + m + " first", "```"], [(m, 0, "paragraph"), (m, 0, "c:directive")]
         if kind == "firstline2":
             return ["```{note} " + m + " first", "", "sub" + m + " second para", "```"], [(m, 0, "paragraph"), ("sub" + m, 2, "paragraph"), (m, 0, "c:directive")]
+        if kind == "epigraph":  # directive output built by MyST's own block-quote splitter: quote paragraph + attribution
+            return ["```{epigraph}", m + " quoted", "", "-- sub" + m + " attributed", "```"], [(m, 1, "paragraph"), ("sub" + m, 3, "attribution"), (m, 1, "c:block_quote")]
         if kind == "quotepara":
             return ["> " + m + " quoted"], [(m, 0, "paragraph"), (m, 0, "c:block_quote")]
         raise ValueError(kind)
 
 
-LEAVES_Q = ["para", "para2", "head", "code", "tgt", "list", "tightlist", "unkdir", "unkrole", "optwarn", "quotepara", "firstline", "firstline2"]
+LEAVES_Q = ["para", "para2", "head", "code", "tgt", "list", "tightlist", "unkdir", "unkrole", "optwarn", "quotepara", "firstline", "firstline2", "epigraph"]
 
 
 def parse_dir(kind):
@@ -244,7 +246,7 @@ class ShapeSystem(System):
                                   f"{what} of marker {m} ({kind}): line {got}, true line {exp}" + (f" in {file}" if file else "") + f" [shape {lk} in {ws}]",
                                   text=text, files=files))
 
-        leafnodes = [n for n in d.findall(lambda n: isinstance(n, (nodes.paragraph, nodes.title, nodes.rubric, nodes.literal_block)))
+        leafnodes = [n for n in d.findall(lambda n: isinstance(n, (nodes.paragraph, nodes.title, nodes.rubric, nodes.literal_block, nodes.attribution)))
                      if not isinstance(n.parent, nodes.system_message)]
         seen_cont = {}
         for m, i, k, f in marks:
